@@ -84,6 +84,7 @@ Definition spawn_warrior (s : sim) (wi : Z) (off : N) : res (sim * list report +
          match w_state w with
          | WAlive => Ok (inr tt)
          | _ =>
+           let off := off mod s_m s in      (* startOffset = startOffset % s.m *)
            let c := load_code (s_m s) (s_mem s) off 0 (w_code w) in
            let q := rq_push (rq_new (s_procs s)) ((add64 off (z2u64 (w_start w))) mod s_m s) in
            let w' := mkW (w_code w) (w_start w) WAlive (Some q) in
